@@ -584,11 +584,32 @@ func registerMatchers() {
 		if pat == nil {
 			return false
 		}
-		switch {
-		case strings.HasSuffix(f.Site, "exec:captures"):
-			return hasNestedNullableLoop(pat, true, false) || hasNestedNullableLoop(pat, false, true)
-		case strings.HasSuffix(f.Site, "exec:span"):
-			return hasNestedNullableLoop(pat, false, true)
+		if !isExecSite(f.Site) || len(in.Subjects) != 1 {
+			return false
+		}
+		lazy := hasNestedNullableLoop(pat, false, true)
+		if !lazy && !hasNestedNullableLoop(pat, true, false) {
+			return false
+		}
+		if len(explainingMasks(f)) > 0 {
+			return false // fully explained by the deviation models: belongs to those findings
+		}
+		// The subject-dependent deviations ('.', \s, multiline anchors, fold orbits) change
+		// the language; under one combination of them (possibly none) the model must agree
+		// with otto on the start index, and on the matched substring too unless a lazy
+		// quantifier sits in the loop. What remains is the nested-loop difference.
+		rel := relevantMask(pat, in.F) &^ 3
+		for mask := 0; mask < 64; mask += 4 {
+			if mask&^rel != 0 {
+				continue
+			}
+			res, _, ok := execUnder(pat, in, mask)
+			if !ok || indexOf(res) != indexOf(f.Actual) {
+				continue
+			}
+			if lazy || spanOf(res) == spanOf(f.Actual) {
+				return true
+			}
 		}
 		return false
 	})
@@ -605,8 +626,7 @@ func registerMatchers() {
 			s := in.Subjects[0]
 			return !asciiOnly(s) && f.Actual == fmt.Sprint(utf8Offset(s, atoi(f.Expected)))
 		case in.Op == "hist" && strings.HasPrefix(f.Site, "hist:"):
-			// region: the state of a global expression carried across a non-ASCII subject,
-			// or search() on one
+			// region: a call of a global expression on a non-ASCII subject; search(): deviation model
 			last := in.Steps[len(in.Steps)-1]
 			if last.Op == "search" && f.Site == "hist:search" && !asciiOnly(last.S) {
 				return f.Actual == fmt.Sprint(utf8Offset(last.S, atoi(f.Expected)))
@@ -614,11 +634,9 @@ func registerMatchers() {
 			if !in.has('g') || strings.HasSuffix(last.Op, "Str") || strings.HasSuffix(last.Op, "StrFn") || last.Op == "split" || last.Op == "search" {
 				return false
 			}
-			for _, st := range in.Steps {
-				if !asciiOnly(st.S) && (st.Op == "exec" || st.Op == "test" || st.Op == "match" || st.Op == "replace" || st.Op == "replacefn") {
-					return true
-				}
-			}
+			// (after a lastIndex disagreement the history is resynchronised, so only the call on
+			// the non-ASCII subject itself can be affected)
+			return !asciiOnly(last.S)
 		}
 		return false
 	})
